@@ -165,6 +165,7 @@ void run(size_t idx) {
 	R_caseDesc(c.what);
 
 	NifFile nif;
+	if (idx % 2) { Rng hr(seed ^ 0x0B7); c.what += " {object " + useObject(nif, hr) + "}"; R_caseDesc(c.what); }   // every second model is built in a used object
 	nif.Create(toNiVersion(v));
 	R_phase("create");
 	NiShape* s = nif.CreateShapeFromData("shape", &mesh.verts, &mesh.tris, &mesh.uvs, withNormals ? &mesh.normals : nullptr);
